@@ -360,24 +360,30 @@ func c20Mutants(r *vlib.Run, id string, m *gen.Model, anch map[string]anchorInfo
 		r.Inconclusive("decode control options: " + err.Error())
 		return
 	}
-	// the Any expansion is compared by content (its value is a serialized OptMsg)
-	anyOK := false
-	if xt, err := types.FindExtensionByNumber("google.protobuf.MessageOptions", 70011); err == nil && gotOpts.Has(xt.TypeDescriptor()) {
-		am := gotOpts.Get(xt.TypeDescriptor()).Message()
-		url := am.Get(am.Descriptor().Fields().ByName("type_url")).String()
-		val := am.Get(am.Descriptor().Fields().ByName("value")).Bytes()
-		if omt, err := types.FindMessageByName(protoreflect.FullName(pkg + ".OptMsg")); err == nil {
-			gotInner, wantInner := dynamicpb.NewMessage(omt.Descriptor()), dynamicpb.NewMessage(omt.Descriptor())
-			e1 := (proto.UnmarshalOptions{Resolver: types}).Unmarshal(val, gotInner)
-			e2 := (prototext.UnmarshalOptions{Resolver: types}).Unmarshal([]byte(`i: 7 s: "x"`), wantInner)
-			if e1 == nil && e2 == nil && url == "type.googleapis.com/"+pkg+".OptMsg" && gen.Diff(gotInner, wantInner) == "" {
-				anyOK = true
+	// the Any expansions are compared by content (the value is a serialized OptMsg); the type URL is kept as written
+	for _, ax := range []struct {
+		num    protoreflect.FieldNumber
+		prefix string
+		body   string
+	}{{70011, "type.googleapis.com/", `i: 7 s: "x"`}, {70013, "type.googleprod.com/", `i: 8`}} {
+		anyOK := false
+		if xt, err := types.FindExtensionByNumber("google.protobuf.MessageOptions", ax.num); err == nil && gotOpts.Has(xt.TypeDescriptor()) {
+			am := gotOpts.Get(xt.TypeDescriptor()).Message()
+			url := am.Get(am.Descriptor().Fields().ByName("type_url")).String()
+			val := am.Get(am.Descriptor().Fields().ByName("value")).Bytes()
+			if omt, err := types.FindMessageByName(protoreflect.FullName(pkg + ".OptMsg")); err == nil {
+				gotInner, wantInner := dynamicpb.NewMessage(omt.Descriptor()), dynamicpb.NewMessage(omt.Descriptor())
+				e1 := (proto.UnmarshalOptions{Resolver: types}).Unmarshal(val, gotInner)
+				e2 := (prototext.UnmarshalOptions{Resolver: types}).Unmarshal([]byte(ax.body), wantInner)
+				if e1 == nil && e2 == nil && url == ax.prefix+pkg+".OptMsg" && gen.Diff(gotInner, wantInner) == "" {
+					anyOK = true
+				}
 			}
+			gotOpts.Clear(xt.TypeDescriptor())
 		}
-		gotOpts.Clear(xt.TypeDescriptor())
-	}
-	if !anyOK {
-		r.Violation("c20.value-differs", "control block: google.protobuf.Any expansion", id, map[string]any{"source": ctlSrc, "options": fmt.Sprint(probe.GetOptions())})
+		if !anyOK {
+			r.Violation("c20.value-differs", "control block: google.protobuf.Any expansion ("+ax.prefix+")", id, map[string]any{"source": ctlSrc, "options": fmt.Sprint(probe.GetOptions())})
+		}
 	}
 	if d := gen.Diff(gotOpts, want); d != "" {
 		r.Violation("c20.value-differs", "control block: "+gen.DiffClass(d), id, map[string]any{"source": ctlSrc, "diff compiled!=expected": d})
